@@ -1380,6 +1380,321 @@ impl Write for StdFile {
     }
 }
 
+/**
+Verification hooks.
+
+This module only exists when the crate is compiled with `--cfg emit_rs_emit_verif`. It exposes public mirrors of the private [`Filesystem`] and [`File`] traits along with wrappers that run the real [`Worker`] and [`EventBatch`] over an injected filesystem, clock, and rng so external harnesses can inject IO faults.
+*/
+#[cfg(emit_rs_emit_verif)]
+pub mod verif {
+    use super::*;
+
+    /**
+    A public mirror of the private `File` trait.
+    */
+    pub trait File: Write + Send + Sync {
+        /**
+        The length of the file in bytes.
+        */
+        fn len(&self) -> io::Result<usize>;
+
+        /**
+        Sync file content to durable storage.
+        */
+        fn sync_all(&mut self) -> io::Result<()>;
+    }
+
+    /**
+    A public mirror of the private `Filesystem` trait.
+    */
+    pub trait Filesystem: Send + Sync {
+        /**
+        See `Filesystem::create_dir_all`.
+        */
+        fn create_dir_all(&self, path: &Path) -> io::Result<()>;
+
+        /**
+        See `Filesystem::sync_parent`.
+        */
+        fn sync_parent(&self, path: &Path) -> io::Result<()>;
+
+        /**
+        See `Filesystem::read_dir_files`.
+        */
+        fn read_dir_files(&self, path: &Path) -> io::Result<Vec<PathBuf>>;
+
+        /**
+        See `Filesystem::remove_file`.
+        */
+        fn remove_file(&self, path: &Path) -> io::Result<()>;
+
+        /**
+        See `Filesystem::open_new`.
+        */
+        fn open_new(&self, path: &Path) -> io::Result<Box<dyn File>>;
+
+        /**
+        See `Filesystem::open_existing`.
+        */
+        fn open_existing(&self, path: &Path) -> io::Result<Box<dyn File>>;
+    }
+
+    struct FileAdapter(Box<dyn File>);
+
+    impl Write for FileAdapter {
+        fn write(&mut self, buf: &[u8]) -> io::Result<usize> {
+            self.0.write(buf)
+        }
+
+        fn flush(&mut self) -> io::Result<()> {
+            self.0.flush()
+        }
+    }
+
+    impl super::File for FileAdapter {
+        fn len(&self) -> io::Result<usize> {
+            self.0.len()
+        }
+
+        fn sync_all(&mut self) -> io::Result<()> {
+            self.0.sync_all()
+        }
+    }
+
+    struct FilesystemAdapter<F>(F);
+
+    impl<F: Filesystem> super::Filesystem for FilesystemAdapter<F> {
+        fn create_dir_all(&self, path: &Path) -> io::Result<()> {
+            self.0.create_dir_all(path)
+        }
+
+        fn sync_parent(&self, path: &Path) -> io::Result<()> {
+            self.0.sync_parent(path)
+        }
+
+        fn read_dir_files(&self, path: &Path) -> io::Result<Box<dyn Iterator<Item = PathBuf>>> {
+            Ok(Box::new(self.0.read_dir_files(path)?.into_iter()))
+        }
+
+        fn remove_file(&self, path: &Path) -> io::Result<()> {
+            self.0.remove_file(path)
+        }
+
+        fn open_new(&self, path: &Path) -> io::Result<Box<dyn super::File + Send + Sync>> {
+            Ok(Box::new(FileAdapter(self.0.open_new(path)?)))
+        }
+
+        fn open_existing(&self, path: &Path) -> io::Result<Box<dyn super::File + Send + Sync>> {
+            Ok(Box::new(FileAdapter(self.0.open_existing(path)?)))
+        }
+    }
+
+    /**
+    The real `EventBatch` channel.
+    */
+    pub struct Batch(EventBatch);
+
+    impl Batch {
+        /**
+        Create an empty batch.
+        */
+        pub fn new() -> Self {
+            Batch(<EventBatch as emit_batcher::Channel>::new())
+        }
+
+        /**
+        Push an event through `Channel::push`.
+        */
+        pub fn push(&mut self, event: &[u8]) {
+            emit_batcher::Channel::push(&mut self.0, event.into())
+        }
+
+        /**
+        `Channel::len`.
+        */
+        pub fn len(&self) -> usize {
+            emit_batcher::Channel::len(&self.0)
+        }
+
+        /**
+        `Channel::clear`.
+        */
+        pub fn clear(&mut self) {
+            emit_batcher::Channel::clear(&mut self.0)
+        }
+
+        /**
+        The events that haven't been written yet.
+        */
+        pub fn remaining(&self) -> Vec<Vec<u8>> {
+            self.0.bufs[cmp_min(self.0.index, self.0.bufs.len())..]
+                .iter()
+                .map(|buf| buf.to_vec())
+                .collect()
+        }
+    }
+
+    fn cmp_min(a: usize, b: usize) -> usize {
+        if a < b {
+            a
+        } else {
+            b
+        }
+    }
+
+    /**
+    The roll period of a file set.
+    */
+    #[derive(Debug, Clone, Copy)]
+    pub enum Roll {
+        /**
+        Roll by day.
+        */
+        Day,
+        /**
+        Roll by hour.
+        */
+        Hour,
+        /**
+        Roll by minute.
+        */
+        Minute,
+    }
+
+    /**
+    Configuration for a [`Worker`].
+    */
+    pub struct Config {
+        /**
+        The file set template, as passed to [`super::set`].
+        */
+        pub file_set: PathBuf,
+        /**
+        The roll period.
+        */
+        pub roll_by: Roll,
+        /**
+        Whether to reuse files.
+        */
+        pub reuse_files: bool,
+        /**
+        The maximum number of files.
+        */
+        pub max_files: usize,
+        /**
+        The maximum size of a file.
+        */
+        pub max_file_size_bytes: usize,
+        /**
+        The separator between events.
+        */
+        pub separator: &'static [u8],
+    }
+
+    /**
+    The real background `Worker` running over injected dependencies.
+    */
+    pub struct Worker(super::Worker);
+
+    impl Worker {
+        /**
+        Create a worker. Fails if the file set template is invalid, as [`FileSetBuilder::spawn`] does.
+        */
+        pub fn new(
+            fs: impl Filesystem + 'static,
+            clock: impl Clock + Send + Sync + 'static,
+            rng: impl Rng + Send + Sync + 'static,
+            config: Config,
+        ) -> Result<Self, Error> {
+            let (dir, file_prefix, file_ext) = dir_prefix_ext(config.file_set)?;
+
+            Ok(Worker(super::Worker::new(
+                Arc::new(InternalMetrics::default()),
+                FilesystemAdapter(fs),
+                clock,
+                rng,
+                dir,
+                file_prefix,
+                file_ext,
+                match config.roll_by {
+                    Roll::Day => RollBy::Day,
+                    Roll::Hour => RollBy::Hour,
+                    Roll::Minute => RollBy::Minute,
+                },
+                config.reuse_files,
+                config.max_files,
+                config.max_file_size_bytes,
+                config.separator,
+            )))
+        }
+
+        /**
+        Process a batch. On failure, returns the batch to retry, if any.
+        */
+        pub fn on_batch(&mut self, batch: Batch) -> Result<(), Option<Batch>> {
+            self.0
+                .on_batch(batch.0)
+                .map_err(|err| err.into_retryable().map(Batch))
+        }
+
+        /**
+        The directory, prefix, and extension the worker derived from its template.
+        */
+        pub fn dir_prefix_ext(&self) -> (&str, &str, &str) {
+            (&self.0.dir, &self.0.file_prefix, &self.0.file_ext)
+        }
+    }
+
+    impl FileSetBuilder {
+        /**
+        Like [`FileSetBuilder::spawn`], but running the background worker over the given filesystem, clock, and rng.
+        */
+        pub fn verif_spawn_with(
+            self,
+            fs: impl Filesystem + 'static,
+            clock: impl Clock + Send + Sync + 'static,
+            rng: impl Rng + Send + Sync + 'static,
+        ) -> Result<FileSet, Error> {
+            let metrics = Arc::new(InternalMetrics::default());
+
+            let (dir, file_prefix, file_ext) = dir_prefix_ext(self.file_set).map_err(Error::new)?;
+
+            let mut worker = super::Worker::new(
+                metrics.clone(),
+                FilesystemAdapter(fs),
+                clock,
+                rng,
+                dir,
+                file_prefix,
+                file_ext,
+                self.roll_by,
+                self.reuse_files,
+                self.max_files,
+                self.max_file_size_bytes,
+                self.separator,
+            );
+
+            let (sender, receiver) = emit_batcher::bounded(10_000);
+
+            let handle = emit_batcher::sync::spawn("emit_file_worker", receiver, move |batch| {
+                worker.on_batch(batch)
+            })
+            .map_err(Error::new)?;
+
+            Ok(FileSet {
+                metrics: metrics.clone(),
+                inner: Some(FileSetInner {
+                    sender,
+                    metrics,
+                    writer: self.writer,
+                    separator: self.separator,
+                    _handle: handle,
+                }),
+            })
+        }
+    }
+}
+
 #[cfg(test)]
 mod tests {
     use super::*;
